@@ -23,6 +23,11 @@ impl Stack {
         }
     }
 
+    #[cfg(tera_verif)]
+    pub(crate) fn len(&self) -> usize {
+        self.values.len()
+    }
+
     #[inline]
     pub(crate) fn push(&mut self, val: Value, span: SpanRange) {
         self.values.push((val, span));
